@@ -60,6 +60,14 @@ def rand_angle(rng):
     return rng.choice(ANGLE_SPECIALS)
 
 
+def rand_unit3(rng):
+    while True:
+        v = [rng.gauss(0, 1) for _ in range(3)]
+        n = math.sqrt(sum(x * x for x in v))
+        if n > 1e-3:
+            return [x / n for x in v]
+
+
 def rand_quat(rng):
     r = rng.random()
     if r < 0.6:
@@ -67,6 +75,12 @@ def rand_quat(rng):
     if r < 0.7:
         q = simio.unit_quat(rng, w_negative=True)
         return q
+    if r < 0.72:
+        # scalar part a hair below zero (a rotation by almost exactly pi)
+        ax = rand_unit3(rng)
+        w = -10.0 ** rng.uniform(-16, -11)
+        s = math.sqrt(1.0 - w * w)
+        return [ax[0] * s, ax[1] * s, ax[2] * s, w]
     if r < 0.8:
         # tiny vector part
         v = [rng.gauss(0, 1e-9) for _ in range(3)]
@@ -139,7 +153,7 @@ class C11(OptEngineBase):
     PROBES = [
         "angle_eq_pi_returned", "angle_near_minus_pi", "big_angle", "boxplus_norm_gt1_branch", "boxplus_norm_eq1", "w_negative", "w_zero",
         "wild_step_applied", "chain_ge_1e4", "via_disk", "optimize_se2", "optimize_se3", "optimize_nonfinite_skipped", "normalize_checked",
-        "chain_ge_1000", "auto_renormalized", "nonunit_constructed", "normalize_inplace", "unclaimed_nonunit_operand", "matrix_product", "matrix_inverse_product", "angle_given_as_float32", "identity_constructed", "identity_object_as_vertex_pose", "increment_buffer_reused", "operand_type_refused", "views_scribbled", "pose_from_file_text",
+        "chain_ge_1000", "auto_renormalized", "nonunit_constructed", "normalize_inplace", "unclaimed_nonunit_operand", "matrix_product", "matrix_inverse_product", "angle_given_as_float32", "identity_constructed", "identity_object_as_vertex_pose", "increment_buffer_reused", "operand_type_refused", "views_scribbled", "pose_from_file_text", "quaternion_edited_in_place_before_normalize",
     ]
 
     def sample_view(self, case):
@@ -621,6 +635,11 @@ class C11(OptEngineBase):
                         if kind == "normalize_inplace":
                             dst = a
                             res.probe("normalize_inplace")
+                            if (op["b"] + op["dst"]) % 3 == 0:
+                                # the owner rescales the quaternion entries in place first (whatever an earlier normalize()
+                                # may have remembered about this object is stale now)
+                                r[3:] *= [1.7, 0.25, -1.0][(op["b"]) % 3]
+                                res.probe("quaternion_edited_in_place_before_normalize")
                         n0 = qnorm(r)
                         if n0 == 0.0 or not math.isfinite(n0):
                             continue
